@@ -25,7 +25,7 @@ META = {
     "encoded": ["csr.reg.Register.__init__", "csr.reg.Register.__iter__", "csr.reg.Register.elaborate",
                 "csr.reg.FieldActionMap.__init__/flatten", "csr.reg.FieldActionArray.__init__/flatten",
                 "csr.reg.Field.create", "csr.reg.FieldPort.Signature"],
-    "also": 'underscore-prefixed annotation names, subclassed annotation-defined registers, sub-collections that are the same object twice, second elaboration of the same register, field paths that coincide under an underscore flattening, r_data of non-readable fields arbitrary',
+    "also": 'underscore-prefixed annotation names, subclassed annotation-defined registers, sub-collections that are the same object twice, second elaboration of the same register, field paths that coincide under an underscore flattening, containers given as dict / list subclasses, r_data of non-readable fields arbitrary',
     "bounds": "field collections: single Field, dict, list, nested dict/list up to depth 3, annotation-defined "
               "classes; 1-6 leaves (thorough 1-9); actions R/W/RW/RW1C/RW1S/reserved; shapes unsigned 0-9, signed "
               "1-5, enum; register access r/w/rw; every value on element and field ports (one free frame)",
@@ -95,7 +95,9 @@ def configs(tier, seed):
         allowed = [a for a, m in ACTIONS.items() if (("r" not in m) or "r" in acc) and (("w" not in m) or "w" in acc)]
         tree = _gen_tree(rnd, 3, allowed, [6 if tier == "quick" else 9])
         style = rnd.choice(["arg", "arg", "annot", "annot_sub"]) if "dict" in tree else "arg"
-        cfg = {"acc": acc, "tree": tree, "style": style, "second": len(out) % 5 == 4}
+        cfg = {"acc": acc, "tree": tree, "style": style, "second": len(out) % 5 == 4,
+               # containers given as dict / list SUBCLASSES (OrderedDict, a user-defined list)
+               "subcls": len(out) % 4 == 1}
         if style == "annot_sub":
             # the register class re-declares its annotations in a SUBCLASS of another annotation-defined register
             # whose instance was created first (per-class state must not leak through inheritance)
@@ -199,8 +201,24 @@ def _walk(tree, obj):
             yield from _walk(v, obj[i])
 
 
+class _L(list):
+    """a list subclass (user-defined container of fields)"""
+
+
+def _subclassed(x):
+    """the same field collection with every dict an OrderedDict and every list a list subclass"""
+    import collections
+    if isinstance(x, dict):
+        return collections.OrderedDict((k, _subclassed(v)) for k, v in x.items())
+    if isinstance(x, list):
+        return _L(_subclassed(v) for v in x)
+    return x
+
+
 def _make_reg(cfg):
     fields = _to_fields(cfg["tree"])
+    if cfg.get("subcls"):
+        fields = _subclassed(fields)
     if cfg["style"] == "annot":
         cls = type("AnnotReg", (csr.Register,), {"__annotations__": dict(fields)}, access=cfg["acc"])
         return cls()
